@@ -74,10 +74,15 @@ class Ctx:
             self.violate(rule, construct, where, detail_bad or detail_ok, key, witness)
         return ok
 
-    def floor(self, what, count, minimum):
+    def floor(self, what, count, minimum, hard=False):
+        """instance-count floor: a shortfall makes the run analysis-broken (exit 2).  Deferred to the end of the checker, so that a
+        change that removes instances AND violates a rule is still reported as the violation it is."""
         self.analysed[what] = count
         if count < minimum:
-            raise AnalysisError(f"floor not met: {what} = {count} < {minimum} confirmed by hand")
+            msg = f"floor not met: {what} = {count} < {minimum} confirmed by hand"
+            if hard:
+                raise AnalysisError(msg)
+            self.__dict__.setdefault("floor_failures", []).append(msg)
 
     def count(self, what, n):
         self.analysed[what] = n
@@ -118,8 +123,10 @@ def run_property(prop, checker, meta, repo_root, tier, evidence_dir=None, quiet=
     try:
         repo = Repo(repo_root)
         ctx = Ctx(repo, prop, tier)
-        ctx.floor("modules", len(repo.mods), 80)
+        ctx.floor("modules", len(repo.mods), 80, hard=True)
         checker(ctx)
+        if getattr(ctx, "floor_failures", None):
+            raise AnalysisError("; ".join(ctx.floor_failures))
     except AnalysisError as e:
         error = f"{e}"
     except Exception as e:      # internal failure of the analysis
@@ -233,6 +240,7 @@ def _normal_form_summary(ctx):
         "alias_or_literal_substitutions": getattr(nz, "alias_subst", 0),
         "spelling_rewrites": getattr(nz, "spelling_changes", 0),
         "shape_rewrites": getattr(nz, "shape_changes", 0),
+        "desugared": {k: (v if isinstance(v, int) else [list(x) for x in v][:20]) for k, v in getattr(nz, "desugar", {}).items()},
     }
 
 
